@@ -7,7 +7,7 @@ from ruleutil import find_fn, fields_read
 
 EXPLANATION = (
     "Pairing clauses decided from the impl inventory and resolved call sites: (PAIR-json) every type with to_json has from_json and "
-    "vice versa; (PAIR-serde) every hand-written serde::Serialize impl has a hand-written serde::Deserialize sibling; (INV) whatever "
+    "vice versa; (PAIR-serde) every hand-written serde::Serialize impl has a hand-written serde::Deserialize sibling (a validating reader next to a derived writer is accepted for a newtype whose reader reads exactly the inner type); (INV) whatever "
     "string form the writer calls (to_hex, to_bech32, to_str, hex::encode, to_bytes, decode_*_to_json_str) the reader calls its "
     "registered inverse for the same type, and set-like types are rebuilt through from_vec (de-duplicating); (SCHEMA-const) the "
     "metadatum and datum serde impls pass the same schema constant to both directions; (SKIP-eq) for TransactionOutput the fields "
@@ -154,6 +154,16 @@ def check(rep, F, tier, replay=None):
     for t in sorted(set(ser) | set(de)):
         st = facts.short_ty(t)
         rep.inst("PAIR-serde")
+        if t in de and t not in ser:
+            # a validating reader next to a derived writer is symmetric when the type is a newtype: the derived writer emits the inner
+            # value as is (serde newtype_struct), and the reader must read exactly that inner type
+            a_ = F.adts.get(t) or F.adts.get(de[t].get("self_adt") or "")
+            derived_ser = any(im2["trait"] == "serde::Serialize" and im2["derive"] and im2["self_ty"] == t for im2 in F.impls)
+            if a_ and a_["kind"] == "struct" and len(a_["variants"][0]["fields"]) == 1 and derived_ser:
+                inner = a_["variants"][0]["fields"][0]["ty"]
+                cd0 = impl_callees(F, de[t])
+                if any(c.endswith("Deserialize<'de> for %s>::deserialize" % inner) or (c.startswith("<%s as " % inner) and "Deserialize" in c and c.endswith("::deserialize")) for c in cd0):
+                    continue
         if t not in ser or t not in de:
             rep.violation("PAIR-serde", st, "%s has a hand-written serde::%s but no hand-written %s" % (st, "Serialize" if t in ser else "Deserialize", "Deserialize" if t in ser else "Serialize"), {})
             continue
